@@ -330,6 +330,16 @@ def run(ctx):
                 kind, bad = M.mutate_fll(rnd, text, names)
                 if k % 4 == 3:
                     kind, bad = "appended component cut short", text + rnd.choice(["\nInputVariable: leftover\n  enabled: true\n  range 0.000 1.000", "\nOutputVariable: extra\n  this line has no colon", "\nRuleBlock: more\n<<<<<<< HEAD"])
+                if k % 4 == 1:
+                    # the keyword `none` (or nothing at all) where the class of a term, a defuzzifier or an activation method with
+                    # parameters is expected: there is no such class
+                    import re
+
+                    what = rnd.choice(["term", "defuzzifier", "activation"])
+                    pattern = {"term": r"(term: \S+) \S+( .*)?$", "defuzzifier": r"(defuzzifier:) \S+( .*)?$", "activation": r"(activation:) \S+( .*)?$"}[what]
+                    word = rnd.choice(["none", "none", "None", "null"])
+                    kind, bad = f"class of a {what} replaced by `{word}`", re.sub(pattern, lambda m: f"{m.group(1)} {word}{m.group(2) or rnd.choice([' 3', ' 0.000 0.500 1.000', ' 100'])}", text, count=1, flags=re.M)
+                    ctx.hit("document:class name replaced by none")
                 importer = shared_importer if k % 2 else fl.FllImporter()
                 with hostile(fl, ENVIRONMENTS[(i // 2) % len(ENVIRONMENTS)] if i % 2 else None, ctx):
                     try:
@@ -402,6 +412,7 @@ def run(ctx):
                 ctx.sample("injected", {"class": cls, "valid": base, "broken": bad})
         probe.report(ctx)
         reach.report(ctx)
+    ctx.require("document:class name replaced by none")
     ctx.require("workload:input and output variable of one name", "compare:accepted proposition binds a term of its variable", "compare:used importer vs new importer", "event:one importer object used for rejected and valid documents", *[f"environment:{e}" for e in ENVIRONMENTS])
     ctx.require("hook:Rule.parse", "hook:Rule.load", "hook:Antecedent.load", "hook:Consequent.load", "hook:RuleBlock.load_rules", "hook:FllImporter.from_string", "mutant accepted", "mutant rejected", "document mutant accepted", "document mutant rejected", "accepted rule evaluated", "accepted document exported", "event:reload of a loaded rule", "refused for an engine without components", "refused for an engine without output variables", "event:reload after a term was renamed is refused", "long antecedent refused")
     if ctx.nshards == 1:
